@@ -3,7 +3,7 @@ import math
 import random
 
 from .. import core, tmwork
-from ..oracles import tm, geod
+from ..oracles import tm, geod, angle as ax
 
 ID = 'C14'
 TITLE = 'grid geodesics (vincinv_utm / vincdir_utm / line_sf)'
@@ -98,9 +98,52 @@ def gen_case(rnd):
                 continue
             # same zone: P2 may leave the 100k..900k band only through the line itself; keep it inside
             continue
-        return {'ell': ell, 'zone1': zone1, 'east1': E1, 'north1': N1, 'zone2': zone2, 'east2': round(E2, 3),
+        case = {'ell': ell, 'zone1': zone1, 'east1': E1, 'north1': N1, 'zone2': zone2, 'east2': round(E2, 3),
                 'north2': round(N2, 3), 'hemi': 'south' if south else 'north', 'az': az, 'length': length}
+        # how the same call is delivered: the grid bearing of the direct call held in one of the angle classes, coordinates
+        # as int / numpy scalars / a float subclass (whole metres for the integer kinds), arguments by keyword, the
+        # hemisphere word in another capitalisation, defaults (southern hemisphere, GRS80) left out
+        if rnd.random() < 0.15:
+            case['bearing_class'] = rnd.choice(ax.ANGLE_CLASSES)
+        rep = core.choose_rep(rnd)
+        if rep:
+            case['rep'] = rep
+            if core.rep_wants_integers(rep):
+                for k in ('east1', 'north1', 'east2', 'north2'):
+                    case[k] = float(round(case[k]))
+        shape = core.choose_shape(rnd)
+        if shape:
+            case['shape'] = shape
+        if rnd.random() < 0.3:
+            case['hemi_spelling'] = rnd.choice(['cap', 'upper'])
+        if rnd.random() < 0.3:
+            case['omit_defaults'] = True
+        return case
     return None
+
+
+def deliver(G, ctx, case, fname, names, values):
+    """The judged call delivered the way the case says."""
+    vals = list(values)
+    hi = names.index('hemisphere')
+    sp = case.get('hemi_spelling')
+    if sp:
+        vals[hi] = vals[hi].capitalize() if sp == 'cap' else vals[hi].upper()
+        ctx.count('hemisphere_spelling:' + sp)
+    omit = ()
+    if case.get('omit_defaults'):
+        omit = tuple(n for n, v in (('ellipsoid', case['ell'] == 'grs80'), ('hemisphere', case['hemi'] == 'south' and not sp)) if v)
+        # leaving out is only possible for a suffix unless keywords are used
+        if 'ellipsoid' not in omit and not case.get('shape'):
+            omit = ()
+        if omit:
+            ctx.count('defaults_left_out')
+    if case.get('shape'):
+        ctx.count('call_shape:' + case['shape'])
+    if case.get('rep'):
+        ctx.count('argument_representation:' + case['rep'])
+    vals = [core.rep_value(case.get('rep'), v) for v in vals]
+    return core.shaped_call(getattr(G, fname), names, vals, case.get('shape'), omit)
 
 
 def judge(ns, ctx, case, linesf_mon=None):
@@ -116,7 +159,9 @@ def judge(ns, ctx, case, linesf_mon=None):
     ctx.count('adjacent_zone_cases' if z1 != z2 else 'same_zone_cases')
     ctx.count('southern_cases' if south else 'northern_cases')
     try:
-        gd, b12, b21, lsf = G.vincinv_utm(z1, e1, n1, z2, e2, n2, hemi, ell)
+        gd, b12, b21, lsf = deliver(G, ctx, case, 'vincinv_utm',
+                                    ['zone1', 'east1', 'north1', 'zone2', 'east2', 'north2', 'hemisphere', 'ellipsoid'],
+                                    [z1, e1, n1, z2, e2, n2, hemi, ell])
     except Exception as e:
         ctx.violation('vincinv_utm:exception', case, {'exception': repr(e)})
         return
@@ -165,7 +210,17 @@ def judge(ns, ctx, case, linesf_mon=None):
         linesf_mon['n'] = 0
         linesf_mon['armed'] = True
     try:
-        zz, ee, nn, bb21, lsf2 = G.vincdir_utm(z1, e1, n1, b12, gd, hemi, ell)
+        brg = b12
+        if case.get('bearing_class'):
+            # the same bearing held in an angle class (every notation resolves 1e-9 arc-second: 5e-10 m at 100 km)
+            try:
+                brg = ax.make_object(ns.angles, case['bearing_class'], float(b12))
+                ctx.count('direct_bearing_as_angle_object')
+            except ValueError:
+                brg = b12
+        zz, ee, nn, bb21, lsf2 = deliver(G, ctx, case, 'vincdir_utm',
+                                         ['zone1', 'east1', 'north1', 'grid1to2', 'grid_dist', 'hemisphere', 'ellipsoid'],
+                                         [z1, e1, n1, brg, gd, hemi, ell])
     except Budget:
         ctx.violation('vincdir_utm:no-convergence', case, {'line_sf_calls': BUDGET})
         return
